@@ -12,6 +12,9 @@
 (*                      Err IN THE CHILD (pinned tree af3d93c)                              *)
 (*   "ExecveNegErrno"   rusl::process::execve wraps the raw negative result (pinned tree)   *)
 (*   "EnvTestInverted"  Command::env without `start`: `!matches!(env, None)` (pinned tree)  *)
+(*   "WaitHoldsPipes"   after a failed / short read of the sync pipe the parent waits for   *)
+(*                      the child while still holding its ends of the child's stdio pipes:  *)
+(*                      a program that reads its stdin to the end never ends (deadlock)     *)
 (* Dev = {} is the code as it stands after the `fix:` commits (see notes/C13.md).           *)
 (* The property-level clauses (SpawnAbs) are evaluated on the observation Obs in EVERY      *)
 (* reachable state.                                                                         *)
@@ -40,12 +43,13 @@ VARIABLES cfg, fault,                      \* chosen in Init, never changed
           pc,                              \* [P, C] -> label
           bi, argv, envmode, vars, envp,   \* builder state (bi: index of the running loop)
           theirs,                          \* setup_io: what the child must dup onto 0..2
+          pin,                             \* the caller holds the write end of the child's stdin pipe (`ours.stdin`)
           pipe,                            \* sync pipe [data, w, r]
           cnt, fired, hist, F,             \* per-process call counts, fault fired, call history, failed steps
           im,                              \* the child's process image being prepared
           ci, cerr, perr, pres,            \* child step index, child/parent error in flight, parent result
           returns, child, execd, image, reaped, cstatus, waitres   \* the observation
-vars_all == <<cfg, fault, pc, bi, argv, envmode, vars, envp, theirs, pipe, cnt, fired, hist, F,
+vars_all == <<cfg, fault, pc, bi, argv, envmode, vars, envp, theirs, pin, pipe, cnt, fired, hist, F,
               im, ci, cerr, perr, pres, returns, child, execd, image, reaped, cstatus, waitres>>
 
 Obs == [returns |-> returns, failed |-> F, child |-> child, execd |-> execd, image |-> image,
@@ -76,6 +80,7 @@ Init ==
     /\ vars = << >>
     /\ envp = << >>
     /\ theirs = <<"-", "-", "-">>
+    /\ pin = FALSE
     /\ pipe = [data |-> << >>, w |-> {}, r |-> {}]
     /\ cnt = [p \in {"P", "C"} |-> [s \in SysNames |-> 0]]
     /\ fired = FALSE
@@ -121,7 +126,7 @@ BuildArg ==
        ELSE /\ Goto("P", "b_env")
             /\ bi' = 0
             /\ UNCHANGED argv
-    /\ UNCHANGED <<cfgv, envmode, vars, envp, theirs, pipe, im, ci, cerr, perr, pres, obsv>>
+    /\ UNCHANGED <<pin, cfgv, envmode, vars, envp, theirs, pipe, im, ci, cerr, perr, pres, obsv>>
     /\ NoCall
 
 BuildEnv ==
@@ -145,7 +150,7 @@ BuildEnv ==
        ELSE /\ Goto("P", "sio")
             /\ bi' = 1
             /\ UNCHANGED <<envmode, vars, envp>>
-    /\ UNCHANGED <<cfgv, argv, theirs, pipe, im, ci, cerr, perr, pres, obsv>>
+    /\ UNCHANGED <<pin, cfgv, argv, theirs, pipe, im, ci, cerr, perr, pres, obsv>>
     /\ NoCall
 
 (* ---- do_spawn, parent side ------------------------------------------------------------- *)
@@ -173,6 +178,7 @@ SetupIo ==
                              /\ pres' = "err"
                              /\ Goto("P", "ret")
                              /\ UNCHANGED <<theirs, bi>>
+    /\ pin' = (pin \/ (bi = 1 /\ cfg.io[1] = "pipe" /\ theirs'[1] = "pipe"))
     /\ UNCHANGED <<cfgv, argv, envmode, vars, envp, pipe, im, ci, cerr, obsv>>
 
 SyncPipe ==
@@ -187,7 +193,7 @@ SyncPipe ==
                    /\ pres' = "err"
                    /\ Goto("P", "ret")
                    /\ UNCHANGED pipe
-    /\ UNCHANGED <<cfgv, buildv, theirs, im, ci, cerr, obsv>>
+    /\ UNCHANGED <<pin, cfgv, buildv, theirs, im, ci, cerr, obsv>>
 
 Fork ==
     /\ pc.P = "fork"
@@ -202,7 +208,7 @@ Fork ==
                    /\ pres' = "err"
                    /\ Goto("P", "ret")
                    /\ UNCHANGED <<pipe, child>>
-    /\ UNCHANGED <<cfgv, buildv, theirs, im, ci, cerr, returns, execd, image, reaped, cstatus, waitres>>
+    /\ UNCHANGED <<pin, cfgv, buildv, theirs, im, ci, cerr, returns, execd, image, reaped, cstatus, waitres>>
 
 \* let _ = close(write_pipe): the result is ignored, the descriptor is released either way
 ParentCloseWrite ==
@@ -210,7 +216,7 @@ ParentCloseWrite ==
     /\ Did("P", "close", Res("P", "close", 0))
     /\ pipe' = [pipe EXCEPT !.w = @ \ {"P"}]
     /\ Goto("P", "p_read")
-    /\ UNCHANGED <<cfgv, buildv, theirs, im, ci, cerr, perr, pres, obsv>>
+    /\ UNCHANGED <<pin, cfgv, buildv, theirs, im, ci, cerr, perr, pres, obsv>>
 
 \* loop { match read(read_pipe, &mut bytes) { Ok(0) | Ok(8) | Err(EINTR) | Err(_) | Ok(..) } }
 ReadPipe ==
@@ -234,6 +240,9 @@ ReadPipe ==
             /\ pres' = "ok"
             /\ Goto("P", "ret")
             /\ UNCHANGED <<pipe, perr>>
+    \* a failed / short read: the caller's ends of the child's stdio pipes are dropped before waiting
+    \* (the child may be running the program) - unless the deviation WaitHoldsPipes is on
+    /\ pin' = IF Hit("P", "read") /\ fault.err # EINTR /\ "WaitHoldsPipes" \notin Dev THEN FALSE ELSE pin
     /\ UNCHANGED <<cfgv, buildv, theirs, im, ci, cerr, obsv>>
 
 \* process.wait()?  (blocks until the child is a zombie)
@@ -252,14 +261,23 @@ WaitChild(next) ==
 ParentWait ==
     /\ pc.P = "p_wait"
     /\ WaitChild("ret")
-    /\ UNCHANGED <<cfgv, buildv, theirs, pipe, im, ci, cerr, pres, returns, child, execd, image, cstatus, waitres>>
+    /\ UNCHANGED <<pin, cfgv, buildv, theirs, pipe, im, ci, cerr, pres, returns, child, execd, image, cstatus, waitres>>
 
 Return ==
     /\ pc.P = "ret"
     /\ returns' = Append(returns, [proc |-> "P", res |-> pres, code |-> IF pres = "ok" THEN 0 ELSE perr,
                                    failed |-> F, child |-> child])
-    /\ Goto("P", IF pres = "ok" THEN "d_wait" ELSE "done")
+    /\ Goto("P", IF pres = "ok" THEN "d_drop" ELSE "done")
+    /\ pin' = (pin /\ pres = "ok")        \* Ok: the Child owns the pipe ends; Err: `ours` is dropped
     /\ UNCHANGED <<cfgv, buildv, theirs, pipe, im, ci, cerr, perr, pres, child, execd, image, reaped, cstatus, waitres>>
+    /\ NoCall
+
+\* Child::wait: drop(self.stdin.take()) first
+DriverDropStdin ==
+    /\ pc.P = "d_drop"
+    /\ pin' = FALSE
+    /\ Goto("P", "d_wait")
+    /\ UNCHANGED <<cfgv, buildv, theirs, pipe, im, ci, cerr, perr, pres, obsv>>
     /\ NoCall
 
 \* the caller then calls Child::wait
@@ -274,7 +292,7 @@ DriverWait ==
             /\ waitres' = [res |-> "ok", status |-> cstatus]
             /\ reaped' = TRUE
     /\ Goto("P", "done")
-    /\ UNCHANGED <<cfgv, buildv, theirs, pipe, im, ci, cerr, perr, pres, returns, child, execd, image, cstatus>>
+    /\ UNCHANGED <<pin, cfgv, buildv, theirs, pipe, im, ci, cerr, perr, pres, returns, child, execd, image, cstatus>>
 
 (* ---- do_spawn, child side --------------------------------------------------------------- *)
 \* what a failing child step does
@@ -296,7 +314,7 @@ ChildCloseRead ==
     /\ Did("C", "close", Res("C", "close", 0))
     /\ pipe' = [pipe EXCEPT !.r = @ \ {"C"}]
     /\ Goto("C", "c_dup")
-    /\ UNCHANGED <<cfgv, buildv, theirs, im, ci, cerr, perr, pres, obsv>>
+    /\ UNCHANGED <<pin, cfgv, buildv, theirs, im, ci, cerr, perr, pres, obsv>>
 
 Dup2 ==
     /\ pc.C = "c_dup"
@@ -316,7 +334,7 @@ Dup2 ==
                         /\ UNCHANGED <<pc, cerr, returns, child>>
                    ELSE /\ ChildFail(e)
                         /\ UNCHANGED <<im, ci>>
-    /\ UNCHANGED <<cfgv, buildv, theirs, pipe, perr, pres, execd, image, reaped, cstatus, waitres>>
+    /\ UNCHANGED <<pin, cfgv, buildv, theirs, pipe, perr, pres, execd, image, reaped, cstatus, waitres>>
 
 \* one optional call: chdir / setuid / setgid / setpgid
 OptStep(label, next, wanted, s, nat, newim) ==
@@ -333,7 +351,7 @@ OptStep(label, next, wanted, s, nat, newim) ==
                         /\ UNCHANGED <<cerr, returns, child>>
                    ELSE /\ ChildFail(e)
                         /\ UNCHANGED im
-    /\ UNCHANGED <<cfgv, buildv, theirs, pipe, ci, perr, pres, execd, image, reaped, cstatus, waitres>>
+    /\ UNCHANGED <<pin, cfgv, buildv, theirs, pipe, ci, perr, pres, execd, image, reaped, cstatus, waitres>>
 
 Chdir   == OptStep("c_chdir", "c_setuid", cfg.cwd # "none", "chdir",
                    IF cfg.cwd = "missing" THEN ENOENT ELSE 0, [im EXCEPT !.cwd = "dirA"])
@@ -358,7 +376,7 @@ PreExec ==
                        THEN UNCHANGED <<pc, F, cerr, returns, child>>
                        ELSE /\ F' = F \cup {[proc |-> "C", step |-> "pre_exec", errno |-> IF code > 0 THEN code ELSE 0]}
                             /\ ChildFail(code)
-    /\ UNCHANGED <<cfgv, buildv, theirs, pipe, cnt, fired, im, ci, perr, pres, execd, image, reaped, cstatus, waitres>>
+    /\ UNCHANGED <<pin, cfgv, buildv, theirs, pipe, cnt, fired, im, ci, perr, pres, execd, image, reaped, cstatus, waitres>>
 
 EnvUsed == CASE envmode = "inherit" -> PEnv          \* crate::env::ENV.env_p
              [] envmode = "none"    -> << >>         \* NULL_ENV
@@ -379,7 +397,7 @@ Execve ==
               ELSE /\ cerr' = IF "ExecveNegErrno" \in Dev THEN 0 - e ELSE e
                    /\ Goto("C", "c_write")
                    /\ UNCHANGED <<execd, image, child, pipe>>
-    /\ UNCHANGED <<cfgv, buildv, theirs, im, ci, perr, pres, returns, reaped, cstatus, waitres>>
+    /\ UNCHANGED <<pin, cfgv, buildv, theirs, im, ci, perr, pres, returns, reaped, cstatus, waitres>>
 
 \* let _ = write(write_pipe, errno ++ "NOEX")   (one atomic pipe write)
 WriteErrno ==
@@ -387,7 +405,7 @@ WriteErrno ==
     /\ Did("C", "write", 0)
     /\ pipe' = [pipe EXCEPT !.data = <<cerr, "NOEX">>]
     /\ Goto("C", "c_exit")
-    /\ UNCHANGED <<cfgv, buildv, theirs, im, ci, cerr, perr, pres, obsv>>
+    /\ UNCHANGED <<pin, cfgv, buildv, theirs, im, ci, cerr, perr, pres, obsv>>
 
 Exit1 ==
     /\ pc.C = "c_exit"
@@ -395,16 +413,17 @@ Exit1 ==
     /\ cstatus' = 256
     /\ pipe' = [pipe EXCEPT !.w = @ \ {"C"}, !.r = @ \ {"C"}]
     /\ Goto("C", "gone")
-    /\ UNCHANGED <<cfgv, buildv, theirs, im, ci, cerr, perr, pres, returns, execd, image, reaped, waitres>>
+    /\ UNCHANGED <<pin, cfgv, buildv, theirs, im, ci, cerr, perr, pres, returns, execd, image, reaped, waitres>>
     /\ NoCall
 
 \* environment: the exec'ed program runs and exits
 ProgExits ==
     /\ pc.C = "prog"
+    /\ ~(cfg.io[1] = "pipe" /\ pin)     \* the program reads its stdin to the end before it exits
     /\ child' = "exited"
     /\ cstatus' = HelperStatus
     /\ Goto("C", "gone")
-    /\ UNCHANGED <<cfgv, buildv, theirs, pipe, im, ci, cerr, perr, pres, returns, execd, image, reaped, waitres>>
+    /\ UNCHANGED <<pin, cfgv, buildv, theirs, pipe, im, ci, cerr, perr, pres, returns, execd, image, reaped, waitres>>
     /\ NoCall
 
 \* environment: the second copy of the caller (deviation ChildReturnsErr) eventually exits
@@ -414,13 +433,13 @@ CallerCopyExits ==
     /\ cstatus' = 97 * 256
     /\ pipe' = [pipe EXCEPT !.w = @ \ {"C"}, !.r = @ \ {"C"}]
     /\ Goto("C", "gone")
-    /\ UNCHANGED <<cfgv, buildv, theirs, im, ci, cerr, perr, pres, returns, execd, image, reaped, waitres>>
+    /\ UNCHANGED <<pin, cfgv, buildv, theirs, im, ci, cerr, perr, pres, returns, execd, image, reaped, waitres>>
     /\ NoCall
 
 Terminal == pc.P = "done" /\ pc.C \in {"none", "gone"}
 
 Next == \/ BuildArg \/ BuildEnv \/ SetupIo \/ SyncPipe \/ Fork \/ ParentCloseWrite \/ ReadPipe
-        \/ ParentWait \/ Return \/ DriverWait
+        \/ ParentWait \/ Return \/ DriverDropStdin \/ DriverWait
         \/ ChildCloseRead \/ Dup2 \/ Chdir \/ Setuid \/ Setgid \/ Setpgid \/ PreExec \/ Execve
         \/ WriteErrno \/ Exit1 \/ ProgExits \/ CallerCopyExits
         \/ (Terminal /\ UNCHANGED vars_all)     \* so that a deadlock = somebody blocked forever
